@@ -63,8 +63,13 @@ def _callee_of(term):
     return term.get("resolved") or term.get("fn")
 
 
-def splice(body, bi, callee):
-    """Inline `callee` at the call terminating block `bi` of `body` (in place)."""
+CLOSURE_CALLS = ("std::ops::Fn::call", "std::ops::FnMut::call_mut", "std::ops::FnOnce::call_once")
+
+
+def splice(body, bi, callee, closure_call=False):
+    """Inline `callee` at the call terminating block `bi` of `body` (in place).
+    closure_call: the call is `Fn*::call*(closure, (args,))`: the closure body takes the environment as _1 and the
+    components of the argument tuple as _2.."""
     blocks = body["blocks"]
     term = blocks[bi]["term"]
     loff = len(body["locals"])
@@ -97,9 +102,23 @@ def splice(body, bi, callee):
             nb["term"] = {"k": "goto", "line": t.get("line", line), "col": 0, "exp": False, "target": unwind_to}
         blocks.append(nb)
     # argument passing
-    for i, a in enumerate(term.get("args", [])):
+    args = term.get("args", [])
+    if closure_call:
         blocks[bi]["stmts"].append({"k": "assign", "line": line, "exp": False, "inl_arg": True,
-                                    "lhs": {"l": loff + 1 + i, "p": []}, "rv": {"use": copy.deepcopy(a)}})
+                                    "lhs": {"l": loff + 1, "p": []}, "rv": {"use": copy.deepcopy(args[0])}})
+        tup = args[1] if len(args) > 1 else None
+        tp = (tup.get("move") or tup.get("copy")) if tup else None
+        for i in range(callee["arg_count"] - 1):
+            if tp is None:
+                break
+            fld = {"f": i, "name": str(i), "of": "(tuple)", "ty": callee["locals"][2 + i]["ty"]}
+            blocks[bi]["stmts"].append({"k": "assign", "line": line, "exp": False, "inl_arg": True,
+                                        "lhs": {"l": loff + 2 + i, "p": []},
+                                        "rv": {"use": {"move": {"l": tp["l"], "p": list(tp["p"]) + [fld]}}}})
+    else:
+        for i, a in enumerate(args):
+            blocks[bi]["stmts"].append({"k": "assign", "line": line, "exp": False, "inl_arg": True,
+                                        "lhs": {"l": loff + 1 + i, "p": []}, "rv": {"use": copy.deepcopy(a)}})
     blocks[bi]["inlined_call"] = {"callee": callee["path"], "line": line, "entry": boff}
     blocks[bi]["term"] = {"k": "goto", "line": line, "col": term.get("col", 0), "exp": term.get("exp", False), "target": boff}
 
@@ -109,9 +128,19 @@ def normalise(crate_name, bodies, known):
     Returns (absorbed_paths, report)."""
     by_path = {b["path"]: b for b in bodies}
     new = {p: b for p, b in by_path.items() if b["kind"] in ("Fn", "AssocFn") and p not in known}
-    if not new:
+    # closures that are called directly (`let f = |..| ..; f(x)`) are local helper functions too
+    direct = set()
+    for b in bodies:
+        for blk in b["blocks"]:
+            t = blk["term"]
+            if t["k"] == "call" and t.get("fn") in CLOSURE_CALLS and t.get("resolved") in by_path \
+                    and by_path[t["resolved"]]["kind"] == "Closure":
+                direct.add(t["resolved"])
+    if not new and not direct:
         return set(), []
     pristine = {p: copy.deepcopy(b) for p, b in new.items()}
+    for p in direct:
+        pristine[p] = copy.deepcopy(by_path[p])
     report = []
     not_absorbed = set()
     # uses as a function value (not in callee position) keep the body visible
@@ -147,7 +176,7 @@ def _inline_into(b, pristine, stack, report, not_absorbed, depth):
             else:
                 budget -= 1
                 start = len(b["blocks"])
-                splice(b, bi, pristine[c])
+                splice(b, bi, pristine[c], closure_call=(t.get("fn") in CLOSURE_CALLS and pristine[c]["kind"] == "Closure"))
                 for nb in range(start, len(b["blocks"])):
                     origin[nb] = chain + (c,)
                 report.append((b["path"], c))
